@@ -256,7 +256,7 @@ def _behavior(ctx):
 def _races(ctx, with_model):
     rng = ctx.sub_rng("race-model" if with_model else "race")
     bound = 3 if ctx.tier == "thorough" else 2
-    max_runs = ctx.n(60, 1500) if with_model else ctx.n(150, 2500)
+    max_runs = ctx.n(100, 1500) if with_model else ctx.n(250, 2500)
     nrandom = ctx.n(10, 200) if with_model else ctx.n(30, 400)
     w = world()
     progs = list(RACE_PROGRAMS) + [gen_race(rng) for _ in range(ctx.n(3, 30))]
@@ -325,7 +325,7 @@ def _races(ctx, with_model):
 def correspondence(ctx):
     common.repo_on_path()
     try:
-        _histories(ctx, ctx.n(2500, 60000), "hist", True)
+        _histories(ctx, ctx.n(6000, 60000), "hist", True)
         _behavior(ctx)
         _races(ctx, True)
     finally:
@@ -335,7 +335,7 @@ def correspondence(ctx):
 def oracle(ctx):
     common.repo_on_path()
     try:
-        _histories(ctx, ctx.n(2500, 60000), "oracle-hist" + ("-search" if ctx.search_mode else ""), False)
+        _histories(ctx, ctx.n(6000, 60000), "oracle-hist" + ("-search" if ctx.search_mode else ""), False)
         _races(ctx, False)
     finally:
         close_world()
